@@ -19,10 +19,12 @@ GVar(n, vk, fields) == [name |-> n, vk |-> vk, fields |-> fields]
 DefStruct(n, zc, da, reprs, cparams, tparams, fields) ==
   [dk |-> "struct", mod |-> "", name |-> n, zc |-> zc, da |-> da, reprs |-> reprs,
    cparams |-> cparams, tparams |-> tparams, tbounds |-> [i \in 1..Len(tparams) |-> ""],
+   tdefaults |-> [i \in 1..Len(tparams) |-> ""], wherec |-> "",
    fields |-> fields, variants |-> <<>>]
 DefEnum(n, zc, da, reprs, cparams, tparams, variants) ==
   [dk |-> "enum", mod |-> "", name |-> n, zc |-> zc, da |-> da, reprs |-> reprs,
    cparams |-> cparams, tparams |-> tparams, tbounds |-> [i \in 1..Len(tparams) |-> ""],
+   tdefaults |-> [i \in 1..Len(tparams) |-> ""], wherec |-> "",
    fields |-> <<>>, variants |-> variants]
 \* bounds written on the type parameters of the definition (Rust syntax)
 WithBounds(def, bs) == [def EXCEPT !.tbounds = bs]
@@ -36,6 +38,14 @@ Subst(g, targs, cargs) ==
     [] g.k = "phantom" -> [g EXCEPT !.arg = Subst(g.arg, targs, cargs)]
     [] g.k = "cflow" -> [g EXCEPT !.b = Subst(g.b, targs, cargs), !.c = Subst(g.c, targs, cargs)]
     [] g.k = "htuple" -> [g EXCEPT !.elems = [i \in 1..Len(g.elems) |-> Subst(g.elems[i], targs, cargs)]]
+    [] g.k = "struct" ->     \* a nested generic type whose arguments mention the parameters
+         [g EXCEPT !.tps = [i \in 1..Len(g.tps) |-> [g.tps[i] EXCEPT !.arg = Subst(g.tps[i].arg, targs, cargs)]],
+                   !.fields = [i \in 1..Len(g.fields) |-> [g.fields[i] EXCEPT !.ty = Subst(g.fields[i].ty, targs, cargs)]]]
+    [] g.k = "enum" ->
+         [g EXCEPT !.tps = [i \in 1..Len(g.tps) |-> [g.tps[i] EXCEPT !.arg = Subst(g.tps[i].arg, targs, cargs)]],
+                   !.variants = [j \in 1..Len(g.variants) |->
+                      [g.variants[j] EXCEPT !.fields = [i \in 1..Len(g.variants[j].fields) |->
+                          [g.variants[j].fields[i] EXCEPT !.ty = Subst(g.variants[j].fields[i].ty, targs, cargs)]]]]]
     [] OTHER -> g
 CArray(ci, e) == [k |-> "carray", ci |-> ci, elem |-> e]
 HTuple(es) == [k |-> "htuple", elems |-> es]
@@ -139,6 +149,7 @@ RECURSIVE RepStr(_, _)
 RepStr(s, n) == IF n = 0 THEN "" ELSE s \o RepStr(s, n - 1)
 Key(T) ==
   CASE T.k = "prim" -> T.name
+    [] T.k = "hw" -> "HW"
     [] T.k = "unit" -> "()"
     [] T.k = "rangefull" -> "RangeFull"
     [] T.k = "string" -> "String"
